@@ -98,14 +98,14 @@ GenFile(l, c) ==
         LET n == It(i).n  r == It(i).r IN
         IF r = "main" THEN
           [tn |-> TName(n), n |-> TName(n), sn |-> TName(n), lib |-> l, fd |-> IsFd(c[n]), gl |-> IsGl(c[n]),
-           outer |-> 0, wrapped |-> 0, ctors |-> <<>>,
+           outer |-> 0, wrapped |-> 0, ctors |-> IF n \in D THEN <<Ix("f", n, "m")>> ELSE <<>>,
            dtor |-> IF n \in D THEN Ix("f", n, "d") ELSE 0,
            elems |-> IF n \in D THEN <<Ix("e", n, "e")>> ELSE <<>>,
            methods |-> IF n \in D THEN <<Ix("f", n, "m")>> ELSE <<>>,
            mseqs |-> IF n \in D THEN <<Ix("s", n, "s")>> ELSE <<>>,
-           casts |-> <<>>,
+           casts |-> IF n \in D THEN <<Ix("f", n, "d")>> ELSE <<>>,
            derivs |-> IF Derives(c, n)
-                        THEN <<[base |-> Ix("t", n - 1, "main"), up |-> Ix("f", n, "u"), down |-> 0]>>
+                        THEN <<[base |-> Ix("t", n - 1, "main"), up |-> Ix("f", n, "u"), down |-> Ix("f", n, "m")]>>
                         ELSE <<>>,
            nested |-> IF n \in D THEN <<Ix("t", n, "nest")>> ELSE <<>>]
         ELSE IF r = "nest" THEN
@@ -118,13 +118,13 @@ GenFile(l, c) ==
            mseqs |-> <<>>, casts |-> <<>>, derivs |-> <<>>, nested |-> <<>>]
       FRec(i) ==
         LET n == It(i).n  r == It(i).r IN
-        CASE r = "m" -> [sn |-> TName(n) \o "::m", lib |-> l, gl |-> FALSE, method |-> TRUE, cls |-> Ix("t", n, "main"),
+        CASE r = "m" -> [sn |-> TName(n) \o "::m", n |-> "m", isget |-> FALSE, isset |-> FALSE, lib |-> l, gl |-> FALSE, method |-> TRUE, cls |-> Ix("t", n, "main"),
                          cw |-> <<>>, pw |-> <<Ix("w", n, "m")>>]
-          [] r = "d" -> [sn |-> TName(n) \o "::~" \o TName(n), lib |-> l, gl |-> FALSE, method |-> TRUE,
+          [] r = "d" -> [sn |-> TName(n) \o "::~" \o TName(n), n |-> "~" \o TName(n), isget |-> FALSE, isset |-> FALSE, lib |-> l, gl |-> FALSE, method |-> TRUE,
                          cls |-> Ix("t", n, "main"), cw |-> <<>>, pw |-> <<>>]
-          [] r = "u" -> [sn |-> TName(n) \o "::upcast", lib |-> l, gl |-> FALSE, method |-> TRUE,
+          [] r = "u" -> [sn |-> TName(n) \o "::upcast", n |-> "upcast", isget |-> FALSE, isset |-> FALSE, lib |-> l, gl |-> FALSE, method |-> TRUE,
                          cls |-> Ix("t", n, "main"), cw |-> <<>>, pw |-> <<>>]
-          [] r = "g" -> [sn |-> "use_" \o TName(n), lib |-> l, gl |-> TRUE, method |-> FALSE, cls |-> 0,
+          [] r = "g" -> [sn |-> "use_" \o TName(n), n |-> "use_" \o TName(n), isget |-> FALSE, isset |-> FALSE, lib |-> l, gl |-> TRUE, method |-> FALSE, cls |-> 0,
                          cw |-> <<Ix("w", n, "g")>>, pw |-> <<>>]
       WRec(i) ==
         LET n == It(i).n  r == It(i).r  o == Other(c, n) IN
@@ -136,12 +136,14 @@ GenFile(l, c) ==
       ERec(i) ==
         LET n == It(i).n  o == Other(c, n) IN
         [sn |-> TName(n) \o "::e", n |-> "e", lib |-> l, gl |-> FALSE, type |-> Ix("t", o, "ptr"),
-         getter |-> Ix("f", n, "m"), setter |-> 0, has |-> 0, clear |-> 0, del |-> 0, ins |-> 0, getkey |-> 0, len |-> 0]
+         getter |-> Ix("f", n, "m"), setter |-> Ix("f", n, "m"), has |-> Ix("f", n, "d"), clear |-> Ix("f", n, "m"),
+         del |-> Ix("f", n, "d"), ins |-> Ix("f", n, "m"), getkey |-> Ix("f", n, "d"), len |-> Ix("f", n, "m")]
       SRec(i) ==
         LET n == It(i).n IN
         [sn |-> TName(n) \o "::get_s", n |-> "get_s", lib |-> l, lenf |-> Ix("f", n, "m"), elemf |-> Ix("f", n, "m")]
       MRec(i) ==
-        [n |-> "MAN_" \o l, lib |-> l, type |-> Ix("t", CHOOSE x \in P : \A y \in P : x <= y, "main"), getter |-> 0]
+        [n |-> "MAN_" \o l, lib |-> l, type |-> Ix("t", CHOOSE x \in P : \A y \in P : x <= y, "main"),
+         getter |-> IF D # {} THEN Ix("f", CHOOSE x \in D : \A y \in D : x <= y, "m") ELSE 0]
   IN [w |-> [i \in Of("w") |-> WRec(i)], f |-> [i \in Of("f") |-> FRec(i)], t |-> [i \in Of("t") |-> TRec(i)],
       m |-> [i \in Of("m") |-> MRec(i)], e |-> [i \in Of("e") |-> ERec(i)], s |-> [i \in Of("s") |-> SRec(i)]]
 
